@@ -31,10 +31,12 @@ CONFIGS = {
              "right_adc_amplitude": "R", "coulomb": "w", "operator": "o"},
     "amps": {"gs_amplitude": "amp", "left_adc_amplitude": "Yl",
              "right_adc_amplitude": "Yr"},
-    "ints": {"eri": "g", "fock": "h", "orb_energy": "eo", "coulomb": "c"},
+    "ints": {"eri": "eri", "fock": "fock", "orb_energy": "eo", "coulomb": "cou"},
     "swap": {"eri": "f", "fock": "V", "left_adc_amplitude": "Y",
              "right_adc_amplitude": "X"},
     "dens": {"gs_density": "gam", "operator": "B", "sym_orb_denom": "Den"},
+    # single-letter names that the library also uses for its own throw-away symbols
+    "xop": {"operator": "x", "coulomb": "y", "sym_orb_denom": "z"},
 }
 
 
